@@ -795,7 +795,8 @@ func (m *M) execInstr(f *Frame, instr ssa.Instruction) {
 				b := bs[d.Pos]
 				// ASCII only
 				if !m.Decide(smt.BVUlt(b, smt.BVC(8, 128))) {
-					abortf("range over string with non-ASCII byte")
+					m.ex.noteAssumption("range-over-string loops: strings containing non-ASCII bytes at the iterated position are outside the model (UTF-8 decoding not modelled; those paths are dropped)")
+					panic(dropPath{why: "non-ASCII byte in range over string"})
 				}
 				m.set(f, in, TupleV{smt.True, smt.BVC(64, uint64(d.Pos)), smt.ZeroExt(24, b)})
 				st.setObj(it.Obj, &IterData{IsStr: true, S: d.S, Pos: d.Pos + 1})
